@@ -301,6 +301,36 @@ fn one_unchanged_scenario(run: &Run, case: u64) {
     }
 }
 
+/// Scale: a tree of 10 040 files with one entry per hunk (two index subdirectories) backed up
+/// twice: the second run writes no block and records the same addresses.
+fn many_hunks(run: &Run) {
+    let mut w = crate::history::many_hunks_world("c14big", run.seed);
+    let o = crate::history::MANY_HUNKS_OPTS;
+    run.eval();
+    let replay = json!({"many_hunks": true});
+    let r1 = w.backup(o);
+    let r2 = w.backup(o);
+    if !r1.backup.as_ref().unwrap().clean() || !r2.backup.as_ref().unwrap().clean() {
+        run.violation("many-hunks-backup-not-clean", format!("{} / {}", r1.backup.unwrap().describe(), r2.backup.unwrap().describe()), replay);
+        return;
+    }
+    let writes = block_writes(&r2.events);
+    if !writes.is_empty() {
+        run.violation("unchanged-tree-wrote-blocks", format!("[10 040-file tree, 1 entry per hunk] second backup issued {} block writes, first {}", writes.len(), writes[0].brief()), replay);
+        return;
+    }
+    let raw = w.raw(false);
+    let (a, b) = (addrs_by_path(&raw, 0), addrs_by_path(&raw, 1));
+    run.count("unchanged_entries_compared", a.len() as u64);
+    if a != b || a.len() < 10_000 {
+        let p = a.keys().find(|k| a.get(*k) != b.get(*k)).cloned().unwrap_or_default();
+        run.violation("unchanged-tree-recorded-different-addresses", format!("[10 040-file tree] {} vs {} file entries; {p}: {:?} vs {:?}", a.len(), b.len(), a.get(&p), b.get(&p)), replay);
+        return;
+    }
+    run.count("unchanged_tree_backups", 1);
+    run.count("unchanged_backups_of_versions_with_more_than_10000_hunks", 1);
+}
+
 /// Scale: blocks of many megabytes. Identical large files, and a file made of identical
 /// large blocks, are stored once -- within one run (the second occurrence is known from the
 /// first) and across runs.
@@ -364,6 +394,7 @@ fn large_blocks(run: &Run) {
 
 pub fn run(tier: Tier, replay: Option<Value>) -> i32 {
     let run = Run::new("C14", "fault_enumeration", tier, replay.clone());
+    let bulk = || {
     let resume_replay = replay.as_ref().and_then(|r| r.get("resume")).is_some();
     if !resume_replay && replay.as_ref().and_then(|r| r.get("unchanged_resume")).is_none() && replay.as_ref().and_then(|r| r.get("read_fault")).is_none() {
         run.par_cases(tier.pick(150, 6000), super::threads(), |c| one_history(&run, c));
@@ -379,16 +410,29 @@ pub fn run(tier: Tier, replay: Option<Value>) -> i32 {
     if (replay.is_none() || unchanged_replay) && !fault_replay {
         run.par_cases(tier.pick(12, 200), super::threads(), |c| one_unchanged_scenario(&run, c));
     }
-    if replay.is_none() || replay.as_ref().and_then(|r| r.get("large_blocks")).is_some() {
-        if let Err(m) = crate::report::guard(|| large_blocks(&run)) {
-            run.inconclusive(format!("harness error in the large-block scenario: {m}"));
+    };
+    let scale = || {
+        if replay.is_none() || replay.as_ref().and_then(|r| r.get("many_hunks")).is_some() {
+            many_hunks(&run);
         }
+        if replay.is_none() || replay.as_ref().and_then(|r| r.get("large_blocks")).is_some() {
+            large_blocks(&run);
+        }
+    };
+    let scale_replay = replay.as_ref().map(|r| r.get("many_hunks").is_some() || r.get("large_blocks").is_some()).unwrap_or(false);
+    if replay.is_none() {
+        // the scale scenarios are sequential: started first and run alongside the bulk
+        super::alongside(&run, "the scale scenarios", scale, bulk);
+    } else if scale_replay {
+        super::alongside(&run, "the scale scenarios", scale, || ());
+    } else {
+        bulk();
     }
     let needs: &[(&str, u64)] = if replay.is_some() { &[] } else {
-        &[("large_block_scenarios", 2), ("large_block_writes_observed", 4), ("unchanged_tree_backups", 10), ("block_writes_observed", 100), ("resume_crash_points", 100), ("crash_points_with_recorded_file_entries", 20), ("recorded_entries_compared", 50), ("unchanged_resume_crash_points", 100), ("read_fault_runs", 100)]
+        &[("large_block_scenarios", 2), ("large_block_writes_observed", 4), ("unchanged_backups_of_versions_with_more_than_10000_hunks", 1), ("unchanged_tree_backups", 10), ("block_writes_observed", 100), ("resume_crash_points", 100), ("crash_points_with_recorded_file_entries", 20), ("recorded_entries_compared", 50), ("unchanged_resume_crash_points", 100), ("read_fault_runs", 100)]
     };
     run.finish(
-        "clause 1: in histories, a second backup of an untouched tree (same or different options) must issue zero block writes, report written_blocks == 0 and record identical addresses for every file (independent decode); clause 2: in every backup of every history each block write is issued only for a name whose file is absent or zero-length, and at most once (attempts are counted, from the interceptor log with pre-states); clause 3: for EVERY crash point k of the C03 scenarios' backup trace, the run is killed before k and then resumed with the same options: no block file left non-empty by the interrupted run is written again, every file entry recorded in the interrupted run's hunks reappears with identical addresses, and unmodified_files >= their number; and for trees that have not changed since the last complete version, a backup killed at EVERY point followed by another backup must still write no block and record that version's addresses. Also, clause 2 under single faults: every read / list_dir / metadata operation of a backup's trace fails once with each of 4 kinds, and still no block write may be issued for a name whose file exists non-empty. Scale: two scenarios with blocks of 9-20 MiB (two identical 21 MiB files and two identical 9 MiB files under default options; one 27 MiB file of three identical 9 MiB blocks): each block is written once, a second backup writes none, the restore is exact. Distinct = histories with an unchanged-tree pair / (scenario, k) with recorded entries.",
+        "clause 1: in histories, a second backup of an untouched tree (same or different options) must issue zero block writes, report written_blocks == 0 and record identical addresses for every file (independent decode); clause 2: in every backup of every history each block write is issued only for a name whose file is absent or zero-length, and at most once (attempts are counted, from the interceptor log with pre-states); clause 3: for EVERY crash point k of the C03 scenarios' backup trace, the run is killed before k and then resumed with the same options: no block file left non-empty by the interrupted run is written again, every file entry recorded in the interrupted run's hunks reappears with identical addresses, and unmodified_files >= their number; and for trees that have not changed since the last complete version, a backup killed at EVERY point followed by another backup must still write no block and record that version's addresses. Also, clause 2 under single faults: every read / list_dir / metadata operation of a backup's trace fails once with each of 4 kinds, and still no block write may be issued for a name whose file exists non-empty. Scale: a 10 040-file tree with one entry per hunk backed up twice (no block written, same addresses); two scenarios with blocks of 9-20 MiB (two identical 21 MiB files and two identical 9 MiB files under default options; one 27 MiB file of three identical 9 MiB blocks): each block is written once, a second backup writes none, the restore is exact. Distinct = histories with an unchanged-tree pair / (scenario, k) with recorded entries.",
         &["kill = no later storage effect", "E2 reader trusted"],
         Some(true),
         needs,
